@@ -175,7 +175,9 @@ def packed(n):
 def size_amp(none=36, sizes=(64, 65, 66, 70, 129, 150)):
     """0 for most cases, else a population / repetition size (for modules with their own way of scaling up).
     Sizes sit on and just above powers of two: implementations switch strategy at such round numbers."""
-    return st.integers(0, none + len(sizes) - 1).map(lambda a: 0 if a < none else sizes[a - none])
+    # (drawn through packed(): plain st.integers(0, n) concentrates on a few values per run - at some seeds hardly
+    # any case of a run was scaled up)
+    return packed(none + len(sizes)).map(lambda a: 0 if a < none else sizes[a - none])
 
 
 def _repeat(o, times):
